@@ -75,19 +75,87 @@ impl Check for C31 {
         tier.pick(1500, 100_000)
     }
     fn rule(&self) -> String {
-        "case = the merged document (and one replica) of a seeded multi-replica history with text, marks, blocks, counters, nested objects and conflicts is anonymized; checked: anonymize returns Ok without panicking; the change graphs are isomorphic under the (actor rank, seq) mapping — same set of (rank, seq), same op count and start op per change, same dependency sets; at the current heads and at up to 4 historical head sets (mapped through the change correspondence) the shapes are equal: object types, number of keys and nesting, sequence lengths, text widths in the encoding, mark ranges, conflict multiplicities; load(save(anonymized)) succeeds and equals it; H3 holds. Non-trivial = ≥2 actors and text/marks/counters/conflicts present; distinct by shape hash.".into()
+        "case = the merged document (and one replica) of a seeded multi-replica history with text, marks, blocks, counters, nested objects and conflicts is anonymized; checked: anonymize returns Ok without panicking; the change graphs are isomorphic under the (actor rank, seq) mapping — same set of (rank, seq), same op count and start op per change, same dependency sets; at the current heads and at up to 4 historical head sets (mapped through the change correspondence) the shapes are equal: object types, number of keys and nesting, sequence lengths, text widths in the encoding, mark ranges, conflict multiplicities; load(save(anonymized)) succeeds and equals it; H3 holds. Every 40th case instead anonymizes a document made by 258–330 actors with random ids, each with a concurrent put of a random value kind on one key and a concurrent insert at the head of one list (actor order decides the winner and the element order, so a replacement-actor order that differs from the original shows as a shape difference). Non-trivial = ≥2 actors and text/marks/counters/conflicts present; distinct by shape hash.".into()
     }
     fn required_counters(&self) -> Vec<&'static str> {
-        vec!["documents_anonymized", "changes_matched", "historical_shapes_compared", "with_conflicts", "with_marks"]
+        vec!["documents_anonymized", "changes_matched", "historical_shapes_compared", "with_conflicts", "with_marks", "many_actor_documents"]
     }
     fn run_case(&self, cx: &mut Ctx, _case: u64, rng: &mut Rng) {
         let enc = enc_for(rng);
+        if _case % 40 == 7 {
+            // actor order past one byte of rank: > 256 actors, each with a concurrent put on one
+            // key and a concurrent insert at the head of one list, value types chosen at random,
+            // so the winner's type and the element order identify the actor order
+            let mut d = many_actors(rng, enc, rng.clone().range(258, 330));
+            cx.count("many_actor_documents");
+            self.check_docs(cx, rng, enc, vec![d.clone(), d.fork()], &[], vec!["many-actor document".into()]);
+            return;
+        }
         let n = rng.range(2, 4);
         let mut w = World::new(rng, n, enc, Profile::contention());
         w.verbose = cx.verbose;
         w.run(rng, rng.clone().range(8, cx.tier.pick(60, 160)));
         let log = w.log.clone();
-        let mut docs: Vec<AutoCommit> = vec![w.merged(), w.docs[0].clone()];
+        let docs: Vec<AutoCommit> = vec![w.merged(), w.docs[0].clone()];
+        self.check_docs(cx, rng, enc, docs, &w.head_sets, log);
+        cx.sample(|| json!({"encoding": enc_name(enc), "replicas": n, "changes": w.ledger.len()}));
+    }
+}
+
+/// one base document, `n` forks with random actor ids, each making one put on the same key and one
+/// insert at the head of the same list with a value of a random kind, all merged
+fn many_actors(rng: &mut Rng, enc: automerge::TextEncoding, n: usize) -> AutoCommit {
+    use automerge::transaction::Transactable;
+    use automerge::{ObjType, ROOT};
+    let mut base = amv::gen::new_doc(enc, 0);
+    let l = base.put_object(ROOT, "l", ObjType::List).unwrap();
+    base.put(ROOT, "k", 0).unwrap();
+    base.commit();
+    let mut forks = vec![];
+    for i in 0..n {
+        let mut id = rng.bytes(rng.clone().range(1, 16));
+        id.push((i % 251) as u8);
+        id.push((i / 251) as u8);
+        let mut f = base.fork().with_actor(ActorId::from(id));
+        for target in 0..2 {
+            let kind = rng.below(7);
+            macro_rules! set {
+                ($v:expr) => {
+                    if target == 0 {
+                        f.put(ROOT, "k", $v).unwrap();
+                    } else {
+                        f.insert(&l, 0, $v).unwrap();
+                    }
+                };
+            }
+            match kind {
+                0 => set!(i as i64),
+                1 => set!(format!("s{i}")),
+                2 => set!(i % 2 == 0),
+                3 => set!(i as f64 + 0.5),
+                4 => set!(automerge::ScalarValue::counter(i as i64)),
+                5 => set!(automerge::ScalarValue::Bytes(vec![1, 2, 3])),
+                _ => {
+                    let t = [ObjType::Map, ObjType::List, ObjType::Text][i % 3];
+                    if target == 0 {
+                        f.put_object(ROOT, "k", t).unwrap();
+                    } else {
+                        f.insert_object(&l, 0, t).unwrap();
+                    }
+                }
+            }
+        }
+        f.commit();
+        forks.push(f);
+    }
+    for f in forks.iter_mut() {
+        base.merge(f).unwrap();
+    }
+    base
+}
+
+impl C31 {
+    fn check_docs(&self, cx: &mut Ctx, rng: &mut Rng, enc: automerge::TextEncoding, mut docs: Vec<AutoCommit>, head_sets: &[Vec<ChangeHash>], log: Vec<String>) {
         for d in docs.iter_mut() {
             d.commit();
             cx.count("documents_anonymized");
@@ -127,7 +195,7 @@ impl Check for C31 {
             // shapes at current and historical heads
             let mut heads_list: Vec<Option<Vec<ChangeHash>>> = vec![None];
             let known: BTreeSet<ChangeHash> = oc.iter().map(|c| c.hash()).collect();
-            let mut hs: Vec<Vec<ChangeHash>> = w.head_sets.iter().filter(|h| !h.is_empty() && h.iter().all(|x| known.contains(x))).cloned().collect();
+            let mut hs: Vec<Vec<ChangeHash>> = head_sets.iter().filter(|h| !h.is_empty() && h.iter().all(|x| known.contains(x))).cloned().collect();
             rng.shuffle(&mut hs);
             hs.truncate(4);
             heads_list.extend(hs.into_iter().map(Some));
@@ -179,6 +247,5 @@ impl Check for C31 {
             }
             cx.nontrivial(fp);
         }
-        cx.sample(|| json!({"encoding": enc_name(enc), "replicas": n, "changes": w.ledger.len()}));
     }
 }
